@@ -92,6 +92,8 @@ def _vectors(r, S, scale, g, P, R, nvec):
         for expo in (10, 14):
             out.append((tag, sign * (1.0 + np.abs(r.normal(size=S))) * 10.0 ** expo))
     out.append(("huge-mixed", r.normal(size=S) * 1e12))
+    # integer-DTYPE vectors (a user assigning jnp.full(n, 10) or a rounded int array): promoted, never truncated
+    out.append(("int-dtype", np.round(r.normal(size=S) * 4 * max(scale, 1.0)).clip(-2e9, 2e9)))
     if g < 1.0:
         try:
             out.append(("vstar", refmdp.vstar(P, R, g)[0]))
@@ -141,7 +143,10 @@ def run_case(case):
     outs = {}
     worst = 0.0
     for k, (vc, V) in enumerate(vecs):
-        s.values = jnp.asarray(V) if k % 2 else np.asarray(V)
+        if vc == "int-dtype":
+            s.values = jnp.asarray(V.astype(np.int32)) if case["vseed"] % 2 else np.asarray(V.astype(np.int64))
+        else:
+            s.values = jnp.asarray(V) if k % 2 else np.asarray(V)
         gain_before = float(getattr(s, "gain", 0.0))
         it0 = int(s.iteration)
         res = target.solve(s, 1)
